@@ -15,8 +15,14 @@ CLAIMS = {
                  'exact and dominate the line lookup and the wrapped call; error recovery and the OnErrorLeaf containment are wired; '
                  'None-discipline for names without tree position in api/classes.py and for parso navigator results in jedi/api/**; '
                  'grammar-derived exhaustiveness of the definition/scope/operator dispatch tables; containment of internal control-flow '
-                 'exceptions. Totality over all inputs is not decided.',
-        'technique': 'decorator/forwarding census + CFG gate rules + None-dereference (contradiction) rule + grammar-vs-table agreement (ast)',
+                 'exceptions; and package-wide contradiction rules for the crash classes the property lists: None results of parso '
+                 'navigators AND of the package\'s own functions, possibly-unbound locals (UnboundLocalError), constant indices into '
+                 'possibly empty slices (IndexError), sibling arithmetic / positional children / bracket content handed to the inference '
+                 'entry points without positive type knowledge (AssertionError), interface completeness of the parameter-name and '
+                 'execution-context families (AttributeError/NotImplementedError), and an inventory of tree-shape assertions. '
+                 'Twenty genuine crashes were found this way and repaired. Totality over all inputs is not decided.',
+        'technique': 'decorator/forwarding census + CFG gate rules + None / unbound-local / empty-index / type-knowledge contradiction rules '
+                     '(per-function CFG with correlated tests, taint through locals and calls) + grammar-vs-table agreement + class-family interface check (ast)',
     },
     'C15': {
         'level': 'Each give-up mechanism named by the property is checked where the recursion enters and on all exits: table of entry points '
@@ -32,7 +38,8 @@ CLAIMS = {
                  'iterating them without a sort; every listed query method\'s return value and every first-wins de-duplication in jedi/api is '
                  'checked against it. Reset: each query method resets the recursion bookkeeping before any inference (or delegates first to '
                  'one that does). Switches: every temporary write to an InferenceState switch, predefined_names or the global settings module '
-                 'is PAIRed with its restore on all exits of the CFG. The definition sort key is total. Equality of result sets across '
+                 'is PAIRed with its restore on all exits of the CFG; the per-query reset gives both detectors and every growing counter a clean '
+                 'slate; no set built in place leaves a function as an unsorted sequence. The definition sort key is total. Equality of result sets across '
                  'processes is not decided. Seven genuine order dependences are recorded as known findings, three were repaired.',
         'technique': 'ValueSet typing fixpoint + order-taint at API boundary + CFG must/pair rules (ast)',
     },
@@ -41,15 +48,18 @@ CLAIMS = {
                  'with builtins; the position limit is dropped exactly when leaving function/module scopes and after that scope\'s filters '
                  'were produced; filter_name stops at the innermost non-empty answer; per-scope filters keep only own-scope names before '
                  'the position, latest reachable first; methods get a parent context climbed past classes; global statements are merged '
-                 'into both module filter producers; the two header-rule implementations agree. Which binding Python uses at run time is not decided.',
-        'technique': 'CFG order/gate/must rules + sibling-implementation agreement (ast)',
+                 'into both module filter producers; the two header-rule implementations agree on comparison, exemption AND the set of scope kinds; '
+                 'no negative child index selects a role on a node whose production ends in an optional group (grammar-derived). Two genuine '
+                 'scoping defects (lambda defaults, comprehension if-clauses) were repaired. Which binding Python uses at run time is not decided.',
+        'technique': 'CFG order/gate/must rules + sibling-implementation agreement + grammar-production analysis (ast, pgen grammar reader)',
     },
     'C04': {
         'level': 'The algebra between fragment, name, complete, prefix length, uniqueness and order, which lives in a few small functions: '
                  'CFG gate rules show the yield of a completion is control-dependent on match() and on the (name, complete) de-duplication, '
                  'def-use rules tie the reported prefix length to the very string matched, complete is None exactly when fuzzy and equals '
-                 'name_with_symbols minus the prefix, the sort key equals the documented one, match() is startswith/subsequence, and every '
-                 'attribute source loop is exhaustive. Completeness against live objects is not decided.',
+                 'name_with_symbols minus the prefix, the sort key equals the documented one, match() is startswith/subsequence, every '
+                 'attribute source loop and every enumerator it draws from (MRO, star imports, filters) is exhaustive, and every producer of '
+                 'Completion objects is duplicate-free by construction or by a seen-set. Completeness against live objects is not decided.',
         'technique': 'CFG gate rules + def-use shape rules + sort-key table comparison (ast)',
     },
     'C05': {
@@ -71,8 +81,9 @@ CLAIMS = {
         'level': 'Single source of truth (the only call of the tree refactorer is get_new_code; diff and apply read it), a whole-package '
                  'inventory of file-system mutators against the triaged apply()/save() sites, the write discipline of ChangedFile.apply '
                  '(original path, newline=\'\', refusal without path), writes-before-renames order in Refactoring.apply, the exception '
-                 'contract of the refactoring modules (every raise is RefactoringError; asserts triaged) and range validation of the '
-                 'until_line index. Byte-level preservation by parso/difflib is not decided.',
+                 'contract of the refactoring modules (every raise is RefactoringError; asserts triaged), range validation of every index into '
+                 'the code lines in any method of Script, None discipline for the optional range end, and component-wise (not '
+                 'string-prefix) mapping of changed paths through the announced renames. Byte-level preservation by parso/difflib is not decided.',
         'technique': 'who-may-write inventory over resolved call sites + def-use/shape checks + CFG order/gate rules (ast)',
     },
     'C08': {
@@ -80,7 +91,8 @@ CLAIMS = {
                  'of import-time factories, global rebinding, functools caches, cross-module attribute writes, mutated default arguments) '
                  'against a triaged table, plus the invalidation wired to each: time caches purged at Script construction and served only '
                  'before expiry, tree-derived caches weak-keyed on the parso cache node and bypassed for path-less buffers, all inference '
-                 'memoisation stored on the per-Script InferenceState, buffer parsed with cache=False. Equality with a fresh process is not decided.',
+                 'memoisation stored on the per-Script InferenceState, buffer parsed with cache=False, and the parso cache item kept for the '
+                 'definition-name memo is tolerated missing and checked to hold the analysed tree. Equality with a fresh process is not decided.',
         'technique': 'store inventory (who-may-write) + CFG must/gate rules + decorator-storage classification (ast)',
     },
     'C17': {
@@ -100,8 +112,9 @@ CLAIMS = {
         'level': 'Pruning and pre-filter, where a small edit silently leaks or loses files: the ignore table, slice-assignment pruning with '
                  'all three exclusions before sub-folders are yielded, propagation into os.walk, files filtered by the same ignore sets in '
                  'matching types and only after the folder\'s .gitignore was read, trailing-slash handling order in gitignored_paths, the '
-                 'regex pre-filter on decoded text, the three search steps and identity-based de-duplication. A genuine defect (files '
-                 'named in .gitignore were searched) was repaired. Completeness of hits is not decided.',
+                 'regex pre-filter on decoded text with no other dismissal in front of it, the three search steps and identity-based '
+                 'de-duplication, component-wise path containment for ignore rules, and str/Path type discipline of the test that keeps the '
+                 'project folder from being searched twice. Three genuine defects were repaired. Completeness of hits is not decided.',
         'technique': 'table equality + CFG order/must rules + dominating-fact (gate) checks (ast)',
     },
     'C09': {
@@ -116,7 +129,8 @@ CLAIMS = {
         'level': 'The delegation wiring only: the composed search path reaches get_module_info on the global branch and the parent __path__ on '
                  'the sub-module branch, sys.path is swapped and restored around the finder walk, sys.meta_path is consulted in order with '
                  'first-spec-wins, namespace portions are passed as a plain list, the attribute-before-sub-module order holds in both sibling '
-                 'implementations, relative levels use py__package__. Agreement with importlib over all layouts is not decided.',
+                 'implementations, relative levels use py__package__, and a dotted name is derived only from a search path entry that is a parent '
+                 'DIRECTORY of the file (separator test after the string prefix). Agreement with importlib over all layouts is not decided.',
         'technique': 'def-use/flow shape rules + CFG order/pair rules + sibling agreement (ast)',
     },
     'C11': {
@@ -137,8 +151,10 @@ CLAIMS = {
         'level': 'Every operation in compiled/access.py and compiled/mixed.py that runs a listed user protocol on a live object (S1: '
                  'getattr/hasattr with a supplied name; S2: subscript, iteration, call, len, next, truth value) must be dominated by an '
                  'exact-builtin-type gate or the safe switch, in the method or at all call sites; wiring of the switch, content of the two '
-                 'allow-tables, getattr_static classification and completeness of dir()-names are checked structurally. Three genuine '
-                 'ungated sinks are recorded as known findings.',
+                 'allow-tables, getattr_static classification (metaclass data descriptors first, chaining classmethod unwrapped, instance '
+                 'dictionary read through dict.get only), bound keys()/values() under exact types only, containment of the dir() hook and '
+                 'completeness of dir()-names are checked structurally. Eight genuine ungated routes were repaired; properties named like the '
+                 'dunders jedi\'s own introspection reads are a stated assumption.',
         'technique': 'protocol-sink detection on live-object expressions + CFG edge-dominance (gate) rules + table checks (ast)',
     },
     'C20': {
@@ -146,7 +162,8 @@ CLAIMS = {
                  'minus popped keys == constructor keywords; nothing filtered; same version and file), coercion of every path-like setting to '
                  'JSON-serialisable str on every branch, the ordered composition prefixed + base + suffixed on private copies with a '
                  'first-wins order-preserving de-duplication and path-containment (not string-prefix) boundary of the ancestor walk, and a '
-                 'who-may-read inventory of the host\'s sys.path. Two genuine round-trip defects were repaired.',
+                 'who-may-read inventory of the host\'s sys.path, the order "Project.load before any heuristic" in the default-project walk, and '
+                 'package-wide str-vs-Path comparison discipline. Three genuine defects were repaired.',
         'technique': 'writer/reader table agreement + def-use shape rules + CFG reachability + who-may-read inventory (ast)',
     },
 }
